@@ -146,6 +146,7 @@ def _requires(c, name):
 class MappingCheckOnlyDeserialize:
     kinds = {"data": "dict"}
     raises = ["ValidationError"]
+    exports = ["C01: returns iff data is an object whose every key and value conform and whose constraints hold", "C08: check-only variant returns the input itself"]
 
     def requires(self, c):
         return _requires(c, "MappingCheckOnly")
@@ -165,6 +166,7 @@ class MappingCheckOnlyDeserialize:
 class MappingDeserialize:
     kinds = {"data": "dict", "items": "dict"}
     raises = ["ValidationError"]
+    exports = ["C01: returns iff data is an object whose every key and value conform and whose constraints hold"]
 
     def requires(self, c):
         return _requires(c, "MappingMethod")
